@@ -367,9 +367,32 @@ def generate(rng, tier):
         extra = expert_extra(rng, 0.3)
         cases.append(anim_case(rng, n, tsb, tracks, rng.randint(0, 1), (rng.randint(0, 10), rng.randint(0, 10)), set(),
                                ("gen:object-reuse-history", f"history-length:{len(hist) + 1}"), extra=extra, history=hist))
+    # ---- long step tracks whose delta histogram puts one symbol exactly on a size-class boundary of the rANS
+    #      probability table (2^14 at 15/16 bits of precision: counts chosen so that the normalisation is exact)
+    for (m, p, z) in [(256, 8, 4096), (512, 6, 2048), (256, 6, 1024)]:
+        for sp in ([1, 2, 3, 4] if thorough else [rng.choice([1, 2]), 3, 4]):
+            n, tsb, tracks = step_track(rng, m, p, z)
+            # the encoder's compression level follows max(encoding speed, decoding speed)
+            cases.append(anim_case(rng, n, tsb, tracks, rng.randint(0, 1), (sp, rng.randint(0, sp)), set(),
+                                   ("gen:symbol-table-boundary", f"enc-speed:{sp:02d}", "frames:1000+")))
     for _ in range(6000 if thorough else 1500):
         cases.append(api_case(rng, ("gen:api-call-sequence",)))
     return cases
+
+
+def step_track(rng, m, p, z):
+    """one int32 track whose frame-to-frame deltas are: 0 exactly z times, each of +-1..+-m exactly p times"""
+    deltas = [0] * z + [k for k in range(1, m + 1) for _ in range(p)] + [-k for k in range(1, m + 1) for _ in range(p)]
+    rng.shuffle(deltas)
+    # the first frame is predicted from 0: start at the first delta
+    v, vals = 0, []
+    for d in deltas:
+        v += d
+        vals.append(v)
+    n = len(vals)
+    tsb = b"".join(struct.pack("<f", f32(i / 30.0)) for i in range(n))
+    data = b"".join(struct.pack("<i", x) for x in vals)
+    return n, tsb, [{"dt": DT["i32"], "nc": 1, "q": None, "data": data}]
 
 
 def body_of(c):
